@@ -374,11 +374,228 @@ def d6_always_acts(chk: Check) -> None:
                  "list deletion".format(par))
 
 
+def d9_negative_and_empty(chk: Check) -> None:
+    """Three ways in which the list branch of _delete_nodes can remove a
+    node that was not matched (or raise IndexError), all visible in the
+    shape of the code:
+
+    a. its bounds guard accepts an index below -len (IndexError);
+    b. it deletes at the recorded position as given: a *negative* position
+       is relative to the end of the list, so it names another element once
+       an element to its right has been deleted (the reverse-order pass
+       protects non-negative positions only);
+    c. a virtual result (a list of coordinates, e.g. a slice) that is empty
+       fails the "list of NodeCoords" test and is handled as a real node at
+       the virtual result's own (parent, parentref)."""
+    from sa.peval import Const, PEval
+    prog = chk.prog
+    chk.rule("C04-D9a", "the list deletion guard rejects every index below "
+             "-len (small-domain evaluation)", floor=1)
+    chk.rule("C04-D9b", "a position used for a list deletion is known to be "
+             "non-negative (tested or normalised) when it is used", floor=1)
+    chk.rule("C04-D9c", "a virtual result handed out with a real (parent, "
+             "parentref) is never empty", floor=1)
+    dn = prog.func("Processor._delete_nodes")
+    loop = [n for n in dn.node.body if isinstance(n, ast.For)][0]
+    item = src(loop.target)
+    roles: Dict[str, str] = {}
+    for n in walk_local(loop):
+        if isinstance(n, ast.Assign) and isinstance(n.value, ast.Attribute) \
+                and src(n.value.value) == item:
+            roles[n.value.attr] = src(n.targets[0])
+    par, ref = roles["parent"], roles["parentref"]
+    pe = PEval()
+    dels = [n for n in walk_local(loop) if isinstance(n, ast.Subscript) and
+            isinstance(n.ctx, ast.Del) and src(n.value) == par and
+            src(n.slice) == ref and any(
+                isinstance(a, ast.If) and "CommentedSeq" in src(a.test)
+                for a in ancestors(n))]
+    if not dels:
+        # the list branch no longer deletes by position: C04-D3's business
+        chk.ok("C04-D9a", dn, loop, "no positional list deletion", "", False)
+        chk.ok("C04-D9b", dn, loop, "no positional list deletion", "", False)
+    for d in dels:
+        guards = [f for f in facts_at(d) if f.kind == "cond" and
+                  "len({})".format(par) in src(f.expr) and ref in src(f.expr)]
+        text = "list deletion at the recorded position"
+        # a
+        bad = []
+        for ln in range(0, 4):
+            for i in range(-ln - 3, -ln):
+                env = {"len({})".format(par): Const(ln), ref: Const(i)}
+                ok = True
+                for g in guards:
+                    t = pe.truth(g.expr, env)
+                    if t is None:
+                        ok = None
+                        break
+                    if t != g.pol:
+                        ok = False
+                if ok is not False:
+                    bad.append("len={} index={}".format(ln, i))
+        if bad:
+            chk.fail("C04-D9a", dn, d, text + " below -len",
+                     "the guards {} let the deletion run for {}: "
+                     "IndexError instead of leaving the list alone".format(
+                         [repr(g) for g in guards], ", ".join(bad[:3])))
+        else:
+            chk.ok("C04-D9a", dn, d, text + " below -len",
+                   "rejected for len 0..3")
+        # b
+        nonneg = any(
+            g.pol and isinstance(g.expr, ast.Compare) and
+            src(g.expr).replace(" ", "") in (
+                "{}>=0".format(ref), "0<={}".format(ref),
+                "0<={}<len({})".format(ref, par))
+            for g in facts_at(d) if g.kind == "cond")
+        normalised = any(
+            isinstance(a, ast.Assign) and src(a.targets[0]) == ref and
+            "len({})".format(par) in src(a.value)
+            for a in walk_local(loop))
+        if nonneg or normalised:
+            chk.ok("C04-D9b", dn, d, text + " sign",
+                   "position known non-negative")
+        else:
+            chk.fail("C04-D9b", dn, d, text + " sign",
+                     "the position is used as recorded; a negative one is "
+                     "relative to the end of the list and names a different "
+                     "element after a deletion to its right (matches are "
+                     "processed in reverse gather order, which keeps only "
+                     "non-negative positions valid)")
+    # c: producers of virtual results
+    n_prod = 0
+    for fi in prog.funcs_in("yamlpath/processor.py"):
+        for c in walk_local(fi.node):
+            if not (isinstance(c, ast.Call) and src(c.func) == "NodeCoords"
+                    and len(c.args) >= 3 and isinstance(c.args[0], ast.Name)):
+                continue
+            lst = c.args[0].id
+            appends = [x for x in walk_local(fi.node)
+                       if isinstance(x, ast.Call) and
+                       isinstance(x.func, ast.Attribute) and
+                       x.func.attr == "append" and src(x.func.value) == lst
+                       and x.args and isinstance(x.args[0], ast.Call) and
+                       src(x.args[0].func) == "NodeCoords"]
+            if not appends:
+                continue
+            n_prod += 1
+            text = "{}: virtual result (list of coordinates) handed out " \
+                "with a real parentref".format(fi.short)
+            guarded = any(
+                f.kind == "cond" and f.pol and (
+                    src(f.expr) == lst or
+                    src(f.expr).replace(" ", "") in (
+                        "len({})>0".format(lst), "len({})>=1".format(lst)))
+                for f in facts_at(c))
+            real = src(c.args[2]) not in ("None",)
+            if guarded or not real:
+                chk.ok("C04-D9c", fi, c, text, "not empty when handed out")
+            else:
+                chk.fail("C04-D9c", fi, c, text,
+                         "`{}` may be empty here: the consumer's test for a "
+                         "list of coordinates (len > 0 and element 0 is a "
+                         "NodeCoords) fails, and the empty virtual result is "
+                         "deleted as if it were the node at ({}, {})".format(
+                             lst, src(c.args[1]), src(c.args[2])))
+    if n_prod == 0:
+        raise AnalysisError("no producer of virtual results found")
+
+
+def d5b_empty_list_is_a_node(chk: Check) -> None:
+    """The first dispatch test of _delete_nodes separates virtual results
+    (lists of coordinates) from real nodes.  Folded over sample node values:
+    an *empty* list -- a real node the path matched -- must not be taken
+    for a virtual result (nothing would be deleted), and a list of plain
+    values must not either."""
+    from sa.peval import Const, PEval
+    prog = chk.prog
+    chk.rule("C04-D5b", "the virtual-result test of _delete_nodes is false "
+             "for an empty list and for a list of plain values", floor=2)
+    dn = prog.func("Processor._delete_nodes")
+    loop = [n for n in dn.node.body if isinstance(n, ast.For)][0]
+    item = src(loop.target)
+    node_v = None
+    for n in walk_local(loop):
+        if isinstance(n, ast.Assign) and isinstance(n.value, ast.Attribute) \
+                and src(n.value.value) == item and n.value.attr == "node":
+            node_v = src(n.targets[0])
+    tests = [n for n in loop.body if isinstance(n, ast.If) and any(
+        isinstance(c, ast.Call) and src(c.func).endswith("._delete_nodes")
+        for s_ in n.body for c in ast.walk(s_))]
+    if node_v is None or len(tests) != 1:
+        raise AnalysisError("virtual-result test of _delete_nodes not found")
+    test = tests[0].test
+    pe = PEval()
+    for sample, label in (([], "an empty list"), (["x"], "a list of values")):
+        env = {node_v: Const(sample), "len({})".format(node_v):
+               Const(len(sample))}
+        if sample:
+            env["{}[0]".format(node_v)] = Const(sample[0])
+        t = pe.truth(test, env)
+        text = "node = {!r}".format(sample)
+        if t is False:
+            chk.ok("C04-D5b", dn, tests[0], text,
+                   "{} is handled as the real node it is".format(label))
+        elif t is True:
+            chk.fail("C04-D5b", dn, tests[0], text,
+                     "{} passes the test for a list of coordinates: the "
+                     "recursion over its (no) members deletes nothing and "
+                     "the matched node survives".format(label))
+        else:
+            # e.g. `node[0]` read without a length test: the test itself
+            # raises for an empty list, which is C04-D5's finding
+            chk.ok("C04-D5b", dn, tests[0], text,
+                   "not decided by folding (left to the partial-operation "
+                   "rule C04-D5)", False)
+
+
+def d2b_ascending_gather(chk: Check) -> None:
+    """_delete_nodes deletes in reverse *gather* order, which is descending
+    position order only if every producer hands out the matches of one list
+    in ascending position order.  The producers that enumerate a list
+    append in loop order -- except where a result collection receives the
+    contents of another one in the middle of the enumeration."""
+    prog = chk.prog
+    chk.rule("C04-D2b", "collections of matches that are yielded for one "
+             "list are filled in enumeration order (append in the loop, no "
+             "extend() from another collection inside it)", floor=2)
+    n = 0
+    for q in ("KeywordSearches.min", "KeywordSearches.max",
+              "KeywordSearches.unique", "KeywordSearches.distinct"):
+        fi = prog.func(q)
+        data = fi.params()[0]
+        for loop in walk_local(fi.node):
+            if not (isinstance(loop, ast.For) and
+                    src(loop.iter) == "enumerate({})".format(data)):
+                continue
+            n += 1
+            ext = [c for c in walk_local(loop) if isinstance(c, ast.Call)
+                   and isinstance(c.func, ast.Attribute) and
+                   c.func.attr in ("extend", "insert") and c.args]
+            text = "{}: for ... in enumerate({})".format(fi.node.name, data)
+            if ext:
+                chk.fail("C04-D2b", fi, ext[0],
+                         "{}: yielded collection extended inside the "
+                         "enumeration".format(fi.node.name),
+                         "earlier matches are moved behind later ones in the "
+                         "collection that is yielded for the inverted "
+                         "keyword: the positions are then not ascending, and "
+                         "the reverse-order deletion removes other elements")
+            else:
+                chk.ok("C04-D2b", fi, loop, text, "append order = position "
+                       "order")
+    if n < 4:
+        raise AnalysisError("list loops of the keyword handlers not found")
+
+
 def run(chk: Check) -> None:
     d1_d2(chk)
     d3_d4(chk)
     d5_partial(chk)
     d6_always_acts(chk)
+    d5b_empty_list_is_a_node(chk)
+    d9_negative_and_empty(chk)
+    d2b_ascending_gather(chk)
     from rules.c06 import falsy_rule
     falsy_rule(chk, "C04-D8", "yamlpath/processor.py", 30,
                doc_exprs={"self.data", "<.node>"})
